@@ -168,6 +168,8 @@ static int run_case(const char *path, const unsigned char *data, long size, uint
 		return 0;
 	}
 	total = mi.seq_data[0].duration;
+	if (total < 0 || total > 36000000)
+		total = 36000000;	/* endless modules report INT_MAX */
 
 	/* configurations */
 	R = pick_rate();
